@@ -1144,6 +1144,7 @@ struct TwExec {
     std::uint64_t failed_loads = 0, dups = 0;
     std::uint64_t calls_by_method[12] = {}, defs_run_by_method[12] = {};
     std::vector<std::string> trace; // reports and outcome tables, in order
+    std::uint64_t unregistered_calls = 0;
 
     void check_catalog_sizes(const std::string& when) {
         std::size_t ncls = 0, nmeth = 0;
@@ -1531,6 +1532,48 @@ struct TwExec {
                     done = true;
             }
         }
+        // C15 through the real thunks and virtual_ptr constructors: an
+        // argument whose class is not registered must be reported by a checked
+        // policy before any definition runs (final is outside the property)
+        if constexpr (P::template has_facet<runtime_checks> && P::template has_facet<type_hash>) {
+            for (int mi : reg.methods) {
+                auto& m = plan.recs[mi];
+                for (std::size_t pos = 0; pos < m.vp.size(); ++pos)
+                    for (int cls = 0; cls < NCLS; ++cls) {
+                        if (L.reg[cls] || !truth_le(cls, m.vp[pos]))
+                            continue;
+                        std::vector<int> tuple;
+                        bool ok = true;
+                        for (std::size_t q = 0; q < m.vp.size(); ++q) {
+                            if (q == pos) {
+                                tuple.push_back(cls);
+                                continue;
+                            }
+                            int other = -1;
+                            for (int c2 = 0; c2 < NCLS && other < 0; ++c2)
+                                if (L.reg[c2] && L.le(c2, m.vp[q]))
+                                    other = c2;
+                            ok = ok && other >= 0;
+                            tuple.push_back(other);
+                        }
+                        if (!ok)
+                            continue;
+                        bool exact_route = (m.slot == 4 || m.slot == 10) ? cls == cDog
+                            : m.slot == 9                               ? cls == cVD
+                                                                        : false;
+                        for (int route = 0; route < (exact_route ? 2 : 1); ++route) {
+                            auto r = Lab<P>::call(m.slot, tuple, route);
+                            ++calls;
+                            ++unregistered_calls;
+                            if (!r.threw || r.alt != EA_UNKNOWN_CLASS || r.seen.code != 0)
+                                fail("C15", "not-diagnosed",
+                                     "method " + std::to_string(m.slot) + " called with an object of the unregistered class " +
+                                         std::to_string(cls) + " at position " + std::to_string(pos) + ", route " + std::to_string(route) +
+                                         (r.threw ? ": another error was reported" : ": no error was reported"));
+                        }
+                    }
+            }
+        }
     }
 
     // unload everything, back to the load-time state
@@ -1663,6 +1706,7 @@ MiniOutcome tw_run_t(const J& c) {
     o.nontrivial = ex.calls > 0 && (ex.used_mi || ex.used_vb || ex.used_history);
     o.counters["events"] = ex.events;
     o.counters["calls"] = ex.calls;
+    o.counters["calls_with_unregistered_class"] = ex.unregistered_calls;
     {
         static const char* names[12] = {"kick(T&)", "meet(T&,int,T&)", "own(MI base)",
                                         "vkick(virtual base&)", "pkick(virtual_ptr)",
